@@ -245,4 +245,5 @@ func C18(c *Ctx) {
 			r.Check("C18-4", FnKey(af)+":print:"+shortCallee(s.Callee), c.Pos(s.Pos()), ok, "a print helper of the writing function must print string(<its argument>) as an operand of fmt.Print/Println")
 		}
 	}
+	c.loggerOptionRule("C18-6")
 }
